@@ -58,7 +58,7 @@ def writer_table(prog):
     return found, rows
 
 
-def ctor_variant(prog, path, depth=2):
+def ctor_variant(prog, path, depth=3):
     """the ContentType variant a constructor of `Content` builds (read from its body)"""
     f = prog.fns.get(path)
     if f is None or f.body is None:
@@ -76,7 +76,7 @@ def ctor_variant(prog, path, depth=2):
             vs.add(d[len(CT) + 2:].split("::")[0])
         elif depth and x.get("k") in ("Call", "MethodCall"):
             cal = core.callee(x) or ""
-            if cal.startswith("rbx_types::content::") and cal != path:
+            if "rbx_types::content::" in cal and cal != path:
                 v = ctor_variant(prog, cal, depth - 1)
                 if v:
                     vs.add(v)
